@@ -55,6 +55,11 @@ def pool_row(rows, jc, scn, base, files, plan, res, what, mrows=None):
                      {"cleaned": fin is not None, "counted": bool(o.get("pool_err") or o.get("pool_miss")),
                       "had_files": bool(o["pool_pre"]), "stale": len(set(o["pool_pre"]) - set(fin)) if fin is not None else 0,
                       "queued": len(o["pool_queue"]),
+                      # the hypotheses of pool_tree_is_what_the_indices_declare on the REAL queue
+                      "hyp": (all(f["check_size"] and not f["ignore_errors"] and not f["ignore_missing"]
+                                  and len(f["variants"]) == 1 and f["variants"][0]["size"] > 0
+                                  and f["variants"][0]["paths"] == [f["variants"][0]["source"]] for f in o["pool_queue"])
+                              and len({f["variants"][0]["source"] for f in o["pool_queue"] if f["variants"]}) == len(o["pool_queue"])),
                       "wrong_size_before": sum(1 for f in o["pool_queue"] for v in f["variants"][:1]
                                                if v["source"] in o["pool_pre"] and o["pool_pre"][v["source"]][0] != v["size"])}))
 
@@ -185,6 +190,7 @@ def run(rep: C.Report):
         rep.count("pool_tie.stale_files_removed", m["stale"])
         rep.count("pool_tie.queued_files", m["queued"])
         rep.count("pool_tie.wrong_size_leftovers_before", m["wrong_size_before"])
+        rep.count("pool_tie.real_queue_meets_theorem_hypotheses", int(m["hyp"]))
     mism, errors = C.run_mismatch_shards(rep.prop, "pool", header, "m_pool", "eq_pool", [(a, b) for _, a, b, _ in rows], shard=25)
     C.tie_verdict(rep, "pool", mism, errors, [c for c, _, _, _ in rows], found, header=header, fn="m_pool",
                   coq_inputs=[a for _, a, _, _ in rows])
